@@ -31,6 +31,8 @@ type Document struct {
 	parts map[string][]byte
 	// 图片ID计数器，确保每个图片都有唯一的ID
 	nextImageID int
+	// 脚注/尾注管理器（每个文档独立，按需创建）
+	footnoteManager *FootnoteManager
 }
 
 // Body 表示文档主体
